@@ -280,6 +280,9 @@ def run(ctx: Ctx) -> Result:
                                 f'rem {fin} f0|ph|{pat}|{5 if fin == "C" else 3}|{h(5 if fin == "C" else 3)} U f0|ph|{pat}|2|{h(2)}',
                                 f'rem U f0|ph|{pat}|2|{h(2)}', 'ev e1 1 s 0', 'ev e2 2 s 1', f'rem U f0|ph|{pat}|3|{h(3)}']
                             yield Case(five, cache, ops, 'merged-backlog')
+            # long hauls with a small memory: hundreds of local and remote steps on one decider (the memory wraps many times)
+            for k in range(6 if ctx.thorough else 2):
+                yield gen_history(ctx.rng, loopy if k % 2 else gp.random_phens(ctx.rng), (8, 4)[k % 2], 500)
             n = 1200 if ctx.thorough else 220
             for i in range(n):
                 phens = loopy if i % 4 == 0 else gp.random_phens(ctx.rng)
